@@ -137,7 +137,7 @@ def run(ctx):
         "a token designates its text when the input at its (line, col) starts with the token's text (LexerCore!Located); "
         "the EOF sentinel may sit anywhere at or after the end of the last line or on the line after it",
         "the character table harness/internal/vchars (NUL, XFF, U2..U4 symbols) projects text faithfully",
-        "hang = no answer from the watched child within 20 s for one input (normal: microseconds), re-run alone before it counts",
+        "hang = no answer from the watched child within 10 s for one input (normal: microseconds), re-run alone before it counts; a shard stops after 4 crash/hang observations",
     ]
     nshards = min(ctx.workers, 8)
 
@@ -167,11 +167,15 @@ def run(ctx):
     ldefs = {"Chunks": "QuickChunks", "MaxLen": "3"} if quick else {"Chunks": "AllChunks", "MaxLen": "3"}
     lex, lead1 = tlc_with_lead(ctx, "Lexer", "Lexer.cfg", "LexerEmit.cfg", ldefs, "lexer-model", workers=min(ctx.workers, 8))
     beh_files = [lex.beh_path]
-    if not quick:
-        lex4, l4 = tlc_with_lead(ctx, "Lexer", "Lexer.cfg", "LexerEmit.cfg", {"Chunks": "QuickChunks", "MaxLen": "4"},
-                                 "lexer-model-L4", workers=min(ctx.workers, 8), timeout=3000)
-        lead1 += l4
-        beh_files.append(lex4.beh_path)
+    # long inputs over a small alphabet (state carried from token to token) ...
+    deep, ld = tlc_with_lead(ctx, "Lexer", "Lexer.cfg", "LexerEmit.cfg", {"Chunks": "DeepChunks", "MaxLen": "4" if quick else "5"},
+                             "lexer-model-deep", workers=min(ctx.workers, 8), timeout=3000)
+    lead1 += ld
+    beh_files.append(deep.beh_path)
+    # ... and seeded random walks over the whole alphabet, up to 10 chunks
+    sim = ctx.tlc("Lexer", cfg="LexerEmit.cfg", simulate=(1500 if quick else 20000), depth=80,
+                  defines={"Chunks": "AllChunks", "MaxLen": "10"}, timeout=1500, tag="lexer-simulate")
+    beh_files.append(sim.beh_path)
     lexbeh = os.path.join(ctx.work, "lexbeh.jsonl")
     seen = set()
     model_bad = set()      # inputs on which the mechanism layer itself breaks the requirement (lead)
@@ -195,16 +199,32 @@ def run(ctx):
     # ------------------------------------------------------------------ 2. pump model + replay
     pump, lead2 = tlc_with_lead(ctx, "Pump", "Pump.cfg", "PumpEmit.cfg", {"MaxLen": "4" if quick else "5"}, "pump-model",
                                 workers=min(ctx.workers, 8))
-    pump_res = ctx.harness(BIN, ["pumpreplay"], stdin_path=pump.beh_path, out_name="pump_res.jsonl")
+    pdeep, lp = tlc_with_lead(ctx, "Pump", "Pump.cfg", "PumpEmit.cfg", {"Kinds": "DeepKinds", "MaxLen": "6" if quick else "7"},
+                              "pump-model-deep", workers=min(ctx.workers, 8))
+    lead2 += lp
+    pump_all = os.path.join(ctx.work, "pump_beh.jsonl")
     pump_bad = set()
-    for line in open(pump.beh_path):
-        b = json.loads(line)
-        if not all(b["req"].values()):
-            pump_bad.add(" ".join(b["toks"]))
+    pseen = set()
+    with open(pump_all, "w") as out:
+        for bf in (pump.beh_path, pdeep.beh_path):
+            for line in open(bf):
+                b = json.loads(line)
+                k = " ".join(b["toks"])
+                if k in pseen:
+                    continue
+                pseen.add(k)
+                out.write(line)
+                if not all(b["req"].values()):
+                    pump_bad.add(k)
+    pump_res = ctx.harness(BIN, ["pumpreplay"], stdin_path=pump_all, out_name="pump_res.jsonl")
 
     # ------------------------------------------------------------------ 3. inputs for the parse runs
     stride = 10 if quick else 1
     mut = ctx.tlc("Mutations", defines={"Stride": str(stride), "Offset": str(ctx.seed % stride)}, tag="mutations", workers=4)
+    # composed mutations (two or three faults), seeded.  In simulation mode TLC evaluates Emit on every candidate
+    # successor (tens of thousands per state), so a few walks print plenty; a seeded sample of them is taken.
+    mut2 = ctx.tlc("Mutations", simulate=(16 if quick else 160), depth=4, workers=4,
+                   defines={"Stride": "1", "Offset": "0", "MaxSteps": "3"}, tag="mutations-composed-simulate")
     pin = os.path.join(ctx.work, "parse_in.jsonl")
     n_in = 0
     with open(pin, "w") as out:
@@ -219,7 +239,26 @@ def run(ctx):
             n_in += 1
             out.write(json.dumps({"id": "mu%d" % nm, "toks": b["toks"], "lex": True,
                                   "class": {"source": "mutation", "mut": b["mut"], "prog": b["prog"], "at": b["at"], "with": b["with"]}}) + "\n")
+        seen_m = set()
+        n2 = 0
+        want = 1500 if quick else 15000
+        pool = [line for line in open(mut2.beh_path) if '"steps":1,' not in line]
+        ctx.rng.shuffle(pool)
+        for line in pool:
+            if n2 >= want:
+                break
+            b = json.loads(line)
+            k = "\x01".join(b["toks"])
+            if b["steps"] < 2 or k in seen_m:
+                continue
+            seen_m.add(k)
+            nm += 1
+            n2 += 1
+            n_in += 1
+            out.write(json.dumps({"id": "mu%d" % nm, "toks": b["toks"], "lex": True,
+                                  "class": {"source": "mutation", "mut": "composed", "prog": b["prog"], "at": b["at"], "with": b["with"]}}) + "\n")
         ctx.notes["mutants"] = nm
+        ctx.notes["mutants_composed"] = n2
         cor = ctx.harness(BIN, ["corpus", "-max", "1200" if quick else "6000", os.path.join(vlib.REPO, "examples")],
                           out_name="corpus_in.jsonl")
         nc = 0
@@ -237,12 +276,15 @@ def run(ctx):
     reproduced = 0
     for rp in lex_res:
         for r in ctx.read_results(rp):
+            if "-skipped-from-" in r["id"]:
+                ctx.add_result(r)
+                continue
             k = "\x01".join(r["input"]["chunks"])
             v = verdicts.get(r["id"])
             if v is not None:
                 r["validated"] = True
                 classify_lex(r, v)
-            if k in model_bad and r["class"]["agrees"]:
+            if k in model_bad and r["class"].get("agrees"):
                 # the code does what the mechanism layer does, and TLC found that this breaks the requirement
                 r.setdefault("mismatch", []).append({"obs": "model-counterexample-reproduced"})
             if r.get("mismatch"):
@@ -258,6 +300,9 @@ def run(ctx):
     max_eof = 0
     for rp in parse_res:
         for r in ctx.read_results(rp):
+            if "-skipped-from-" in r["id"]:
+                ctx.add_result(r)
+                continue
             v = run_verdict(verdicts, r["id"])
             if v is None and not r.get("mismatch"):
                 raise MachineryFault("no verdict for %s" % r["id"])
